@@ -317,7 +317,7 @@ pub(crate) fn add_discdist_custom<W, R, T>(
             if len == 0 {
                 return xerr(ManagedXError::new("sequence is empty", rt)?);
             }
-            rt.can_allocate(len * size_of::<usize>())?;
+            rt.can_allocate(len.saturating_mul(size_of::<usize>()))?;
             let arr = xraise!(s0.diter(ns, rt.clone()).unwrap().collect::<XResult<Vec<_>,_, _, _>>()?);
             let mut items = arr.iter().map(|item| {
                 let tup = to_primitive!(item, StructInstance);
@@ -580,7 +580,7 @@ pub(crate) fn add_discdist_sample<W, R: SeedableRng + RngCore, T>(
             let Some(i1) = to_primitive!(a1, Int).to_usize() else { return xerr(ManagedXError::new("count out of bounds", rt)?); };
             rt.limits
                 .check_permission(&builtin_permissions::RANDOM)?;
-            rt.can_allocate(i1*size_of::<usize>())?;
+            rt.can_allocate(i1.saturating_mul(size_of::<usize>()))?;
             let nums = d0.sample(i1, rt.stats.borrow_mut().get_rng());
             let nums = nums.into_iter().map(|v| ManagedXValue::new(XValue::Int(v), rt.clone())).collect::<Result<Vec<_>, _>>()?;
             let ret = XSequence::array(nums);
